@@ -7,6 +7,7 @@ from .superpose import get_trans_vect, get_rotation_matrix, superpose_selection
 from . import transform
 import os
 import pickle
+import tempfile
 
 
 class StructureSimilarity(object):
@@ -237,14 +238,8 @@ class StructureSimilarity(object):
 
         if save_file:
             if filename is None:
-                f = open(self.ref.split('.')[0] + '.lzone', 'w')
-            else:
-                f = open(filename, 'w')
-            for res in data_test:
-                chain = res[0]
-                num = res[1]
-                f.write('zone %s%d-%s%d\n' % (chain, num, chain, num))
-            f.close()
+                filename = self.ref.split('.')[0] + '.lzone'
+            self._write_zone(filename, data_test)
 
         resData = {}
         for res in data_test:
@@ -369,17 +364,9 @@ class StructureSimilarity(object):
         sql_ref._close()
 
         if save_file:
-
             if filename is None:
-                f = open(self.ref.split('.')[0] + '.izone', 'w')
-            else:
-                f = open(filename, 'w')
-
-            for res in data_test:
-                chain = res[0]
-                num = res[1]
-                f.write('zone %s%d-%s%d\n' % (chain, num, chain, num))
-            f.close()
+                filename = self.ref.split('.')[0] + '.izone'
+            self._write_zone(filename, data_test)
 
         resData = {}
         for res in data_test:
@@ -1078,6 +1065,26 @@ class StructureSimilarity(object):
 
         else:
             return set(data_in_zone)
+
+    @staticmethod
+    def _write_zone(filename, data):
+        """Write a zone file atomically.
+
+        The lines go to a temporary file in the same directory which is then
+        renamed, so that a concurrent reader never sees a partial zone file.
+
+        Args:
+            filename (str): name of the zone file
+            data (list): (chainID, resSeq) of the zone residues
+        """
+        fd, tmp = tempfile.mkstemp(dir=os.path.dirname(filename) or '.',
+                                   prefix=os.path.basename(filename) + '.')
+        with os.fdopen(fd, 'w') as f:
+            for res in data:
+                chain = res[0]
+                num = res[1]
+                f.write('zone %s%d-%s%d\n' % (chain, num, chain, num))
+        os.replace(tmp, filename)
 
     @staticmethod
     def read_zone(zone_file):
